@@ -10,6 +10,8 @@ bounded relational tier looks for one).
   F3  order-sensitive use of a set-typed value     (for x in <set>;  list(<set>);  min/max(<set>, key=...);
                                                      ', '.join(<set>);  next(iter(<set>)) ...)
   F4  reads of time / random / os.environ / id() / hash()
+  F5  memoisation of a function (functools.lru_cache / cache decorators, module-level dict used as a cache)
+      and mutable default arguments: results shared between compilations
 """
 import ast
 import os
@@ -17,7 +19,9 @@ import os
 REPO = os.environ.get('VERIF_REPO', '/repo')
 
 FILES = ['parser_py/parse.py', 'compiler/universe.py', 'compiler/functors.py', 'compiler/rule_translate.py',
-         'compiler/expr_translate.py', 'compiler/dialects.py', 'compiler/dialect_libraries/recursion_library.py']
+         'compiler/expr_translate.py', 'compiler/dialects.py', 'compiler/dialect_libraries/recursion_library.py',
+         'type_inference/research/infer.py', 'type_inference/research/types_of_builtins.py',
+         'type_inference/research/reference_algebra.py']
 
 ORDER_INSENSITIVE_SINKS = {'set', 'frozenset', 'sorted', 'len', 'any', 'all', 'sum', 'bool', 'dict'}
 
@@ -61,6 +65,12 @@ class Sets(ast.NodeVisitor):
 
 def function_sites(rel, fn, qual):
   sites = []
+  for d in fn.decorator_list:
+    if 'cache' in _src(d):
+      sites.append(('F5', 'decorator ' + _src(d)))
+  for d in list(fn.args.defaults) + [x for x in fn.args.kw_defaults if x is not None]:
+    if isinstance(d, (ast.List, ast.Dict, ast.Set)) or (isinstance(d, ast.Call) and _src(d.func) in ('list', 'dict', 'set')):
+      sites.append(('F5', 'mutable default ' + _src(d)))
   sets = Sets()
   # two passes so that names assigned later in the function are known
   sets.visit(fn)
